@@ -16,6 +16,7 @@ import tempfile
 from pathlib import Path
 
 from ..core import Family
+from ..sim.client_pki import CA_CERTS, LOOKALIKES
 
 ID = "C03"
 READY = True
@@ -30,7 +31,12 @@ ASSUMPTIONS = [
     "a fingerprint is an opaque value in the model (Nat); two certificates are 'the same' iff their sha256(DER) strings are equal — the harness checks this with fingerprints that differ only in the last hex digit / only in the second half",
     "overlapping calls (asyncio.gather on one client, or two clients on one store) are modelled as ANY serialisation of their connects: verify + trust of one connection is assumed to be one uninterrupted step; the harness runs overlapping first connections with different certificates against a slowed-down store to check it",
     "the certificate pool includes an expired and a not-yet-valid certificate: the validity period is not part of the model (the property does not mention it), so the code must treat them like any other certificate",
-    "hosts are the names localhost / 127.0.0.1 / 127.0.0.2 (three different TOFU keys served by the same scripted loopback peers) on two ports bound per process",
+    "hosts are the names localhost / 127.0.0.1 / 127.0.0.2 (three different TOFU keys served by the same scripted loopback peers) on two ports bound per process; "
+    "the `configured` family adds look-alike names that exist in no DNS (my_host.test / my-host.test / myxhost.test / my%host.test, IPv6 literals with a zone id): "
+    "socket.getaddrinfo is patched in the harness process to answer 127.0.0.1 for exactly these names, everything after name resolution is the real code",
+    "the pin store is observed by an independent read-only SQLite connection (SELECT hostname, port, fingerprint FROM known_hosts) after every step: "
+    "'host:port has a pinned fingerprint' means a committed row of the configured store file, whatever a connection object of the client may hold uncommitted",
+    "HOME points to an empty temporary directory during every history, so a pin store other than the configured one would appear there",
 ]
 LEVEL_TEXT = ("Lean 4 theorems over a hand-written model of the post-handshake pin check (GeminiClient._get_single / upload) and of "
               "TOFUDatabase.verify/trust/revoke/revoke_by_hostname/clear/import_toml, for ALL histories of fetches, uploads, redirect chains and "
@@ -44,16 +50,21 @@ TECHNIQUE = "interactive theorem proving (Lean 4, induction over histories) + mo
 # the pin store is SQLite with a commit per operation: keep it on tmpfs when there is one
 SHM = "/dev/shm" if os.path.isdir("/dev/shm") and os.access("/dev/shm", os.W_OK) else None
 
-HOSTS = ["localhost", "127.0.0.1", "127.0.0.2"]
-# certificate index -> name in the peer's CertStore; 4 = expired (notAfter in the past), 5 = not valid yet
-CERTS = ["rsa", "ec", "ed", "hostile", "expired", "notyet"]
-CERT_FP = [0, 1, 2, 3, 6, 7]                      # fingerprint id of each certificate
-READABLE = [0, 1, 2, 4, 5]                        # certificates cryptography.x509 can load
+# host index -> name; 0..2 are served by name/address, 3.. are the look-alike names (resolved to 127.0.0.1 by the harness)
+HOSTS = ["localhost", "127.0.0.1", "127.0.0.2"] + list(LOOKALIKES)
+N_PLAIN_HOSTS = 3
+# certificate index -> name in the peer's CertStore; 4 = expired (notAfter in the past), 5 = not valid yet,
+# 6..8 = three certificates issued by the harness CA (for clients that verify the chain: verify_ssl=True)
+CERTS = ["rsa", "ec", "ed", "hostile", "expired", "notyet"] + list(CA_CERTS)
+READABLE = [0, 1, 2, 4, 5]                        # self-signed certificates cryptography.x509 can load (they have spelled variants)
+CA_FIRST = 6                                      # index of the first CA-issued certificate
 # fingerprint ids: 0..3, 6, 7 = the certificates, 4/5 = near misses of 0/1, 8.. = OTHER SPELLINGS of the same digests
 # (import_toml accepts and stores them verbatim): id 8 + 3*i + j = certificate READABLE[i] spelled
 # j=0 "sha256:<HEX>", j=1 "SHA256:<hex>", j=2 "SHA256:<HEX>"
 N_BASE = 8
 N_FP = N_BASE + 3 * len(READABLE)
+# fingerprint id of each certificate; the CA-issued ones follow the spelled variants
+CERT_FP = [0, 1, 2, 3, 6, 7] + [N_FP + i for i in range(len(CA_CERTS))]
 
 
 def spell(fp: str, j: int) -> str:
@@ -63,7 +74,7 @@ def spell(fp: str, j: int) -> str:
 
 def sem(fpid):
     """the digest a stored pin denotes, as the id of its canonical spelling"""
-    if isinstance(fpid, int) and fpid >= N_BASE:
+    if isinstance(fpid, int) and N_BASE <= fpid < N_FP:
         return CERT_FP[READABLE[(fpid - N_BASE) // 3]]
     return fpid
 
@@ -78,8 +89,8 @@ def fp_table(w) -> list[str]:
     f0, f1 = f[0], f[1]
     near0 = f0[:-1] + ("0" if f0[-1] != "0" else "1")                      # differs in the last hex digit only
     near1 = f1[:7 + 32] + "".join("0" if ch != "0" else "1" for ch in f1[7 + 32:])   # same first half
-    base = f + [near0, near1] + [c[n].fingerprint for n in CERTS[4:]]
-    return base + [spell(base[CERT_FP[ci]], j) for ci in READABLE for j in range(3)]
+    base = f + [near0, near1] + [c[n].fingerprint for n in CERTS[4:6]]
+    return base + [spell(base[CERT_FP[ci]], j) for ci in READABLE for j in range(3)] + [c[n].fingerprint for n in CA_CERTS]
 
 
 # ----------------------------------------------------------------------------
@@ -96,8 +107,12 @@ class Runner:
     def __init__(self):
         from ..sim import client_tlspeer as T
 
+        from ..sim import client_pki
+
         self.T = T
         self.w = T.world()
+        self.pki = client_pki.ensure(self.w)           # CA-issued server certificates, CA file, a client identity
+        client_pki.install_resolver(LOOKALIKES)        # the look-alike names lead to the loopback peers
         self.peers = self.w["peers"]
         self.fps = fp_table(self.w)
         self.fpid = {f: i for i, f in enumerate(self.fps)}
@@ -113,16 +128,30 @@ class Runner:
     def pid(self, port):
         return self.ports.index(port) if port in self.ports else f"?{port}"
 
-    def rows(self, db: Path):
-        from nauyaca.security.tofu import TOFUDatabase
+    def raw_rows(self, db: Path):
+        """(hostname, port, fingerprint) of every COMMITTED row, read by an independent read-only connection"""
+        import sqlite3
 
-        out = []
-        for r in TOFUDatabase(db).list_hosts():
-            out.append([self.hid(r["hostname"]), self.pid(int(r["port"])), self.fpid.get(r["fingerprint"], r["fingerprint"])])
+        if not Path(db).exists():
+            return []
+        conn = sqlite3.connect(f"file:{db}?mode=ro", uri=True, timeout=2.0)
+        try:
+            try:
+                return [(r[0], int(r[1]), r[2]) for r in conn.execute("SELECT hostname, port, fingerprint FROM known_hosts")]
+            except sqlite3.OperationalError as e:
+                if "no such table" in str(e):
+                    return []
+                raise
+        finally:
+            conn.close()
+
+    def rows(self, db: Path):
+        out = [[self.hid(h), self.pid(p), self.fpid.get(f, f)] for h, p, f in self.raw_rows(db)]
         return sorted(out, key=lambda x: (str(x[0]), str(x[1])))
 
     def url(self, h: int, p: int, path: str) -> str:
-        return f"gemini://{HOSTS[h]}:{self.ports[p]}{path}"
+        name = HOSTS[h]
+        return f"gemini://{'[' + name + ']' if ':' in name else name}:{self.ports[p]}{path}"
 
     def take_logs(self):
         ents = []
@@ -272,6 +301,10 @@ def model_line(case) -> str:
         elif k == "import":
             ents = ",".join(f"{e[0]}.{e[1]}={e[2]}" for e in op[3]) or "-"
             words.append(f"{'im' if op[1] == 'merge' else 'ir'}:{'u' if op[2] == 'update' else 's'}:{ents}")
+        elif k in ("import_bad", "export_import"):
+            # what the code does: an import that raises is rolled back as a whole (also the DELETE of replace mode);
+            # export followed by import of the same file restores the same (host, port) -> fingerprint map
+            words.append("im:s:-")
         else:
             raise ValueError(op)
     return " ".join(words)
@@ -453,12 +486,21 @@ class Histories(Family):
         tmp = tempfile.mkdtemp(prefix="nv-", dir=SHM)
         db = Path(tmp) / "tofu.db"
         steps = []
+        # the user's home is an empty directory for the run: any pin store other than the configured one shows up there
+        home = Path(tmp) / "home"
+        home.mkdir()
+        old_home = os.environ.get("HOME")
+        os.environ["HOME"] = str(home)
+        own = bool(case.get("own"))
 
         def mk():
             kw = {}
             if getattr(self, "shared_ctx", False):
                 # exhaustive family: thousands of clients; build nauyaca's own TOFU-mode context once per process
                 kw["ssl_context"] = _client_ctx()
+            if case.get("ident"):
+                # the user has a client certificate (never requested by the scripted peers)
+                kw["client_cert"], kw["client_key"] = R.pki["ident_cert"], R.pki["ident_key"]
             return GeminiClient(timeout=5.0, trust_on_first_use=case["tofu"], tofu_db_path=db if case["tofu"] else None, **kw)
 
         async def run():
@@ -480,7 +522,9 @@ class Histories(Family):
                     st["conns"] = [len(e["rx"]) > 0 for e in logs]
                     st["detail"] = {"status": res[1] if res[0] == "ok" else None, "certs": [e["cert"] for e in logs], "hs": [e["hs"] for e in logs]}
                 else:
-                    tdb = TOFUDatabase(db)
+                    # `own`: the store operation is made on the client's own TOFUDatabase object (an application that
+                    # fetches and manages pins with one client); otherwise by a separate object on the same file (the CLI)
+                    tdb = client.tofu_db if own and client.tofu_db is not None else TOFUDatabase(db)
                     if k == "trust":
                         tdb.trust(HOSTS[op[1]], R.ports[op[2]], R.w["certs"].x509(CERTS[op[3]]))
                     elif k == "revoke":
@@ -500,14 +544,69 @@ class Histories(Family):
                         f.write_bytes(tomli_w.dumps(data).encode())
                         cb = None if op[2] == "none" else (lambda *a, upd=(op[2] == "update"): upd)
                         tdb.import_toml(f, merge=(op[1] == "merge"), on_conflict=cb)
+                    elif k == "import_bad":
+                        # ["import_bad", mode, conflicts, valid entries, kind of the bad entry, its position]: an import that FAILS part-way
+                        import tomli_w
+
+                        ok_ts = {"first_seen": "2026-01-01T00:00:00+00:00", "last_seen": "2026-01-01T00:00:00+00:00"}
+                        ents = [(f"entry{i}", {"hostname": HOSTS[e[0]], "port": R.ports[e[1]], "fingerprint": R.fps[e[2]], **ok_ts}) for i, e in enumerate(op[3])]
+                        bad = {"hostname": "bad.example", "port": 1965, "fingerprint": R.fps[0], **ok_ts}
+                        if op[4] == "fp":
+                            bad["fingerprint"] = "sha256:not-a-fingerprint"
+                        elif op[4] == "port":
+                            bad["port"] = 70000
+                        elif op[4] == "field":
+                            del bad["last_seen"]
+                        pos = min(op[5], len(ents))
+                        ents.insert(pos, ("broken", bad))
+                        data = {"_metadata": {"version": "1.0"}, "hosts": dict(ents)}
+                        if op[4] == "nohosts":
+                            data = {"_metadata": {"version": "1.0"}}
+                        f = Path(tmp) / "import.toml"
+                        f.write_bytes(tomli_w.dumps(data).encode())
+                        cb = None if op[2] == "none" else (lambda *a, upd=(op[2] == "update"): upd)
+                        try:
+                            tdb.import_toml(f, merge=(op[1] == "merge"), on_conflict=cb)
+                            st["raised"] = None
+                        except ValueError:
+                            st["raised"] = "ValueError"
+                    elif k == "export_import":
+                        # backup and restore: ["export_import", "merge" | "replace" | "clear-merge"]
+                        f = Path(tmp) / "export.toml"
+                        tdb.export_toml(f)
+                        if op[1] == "clear-merge":
+                            tdb.clear()
+                        tdb.import_toml(f, merge=(op[1] != "replace"))
+                    else:
+                        raise ValueError(op)
                 st["rows"] = R.rows(db)
                 steps.append(st)
 
         try:
             R.run(run())
+            if steps:
+                steps[-1]["stray"] = self.stray_stores(home)
         finally:
+            if old_home is None:
+                os.environ.pop("HOME", None)
+            else:
+                os.environ["HOME"] = old_home
             shutil.rmtree(tmp, ignore_errors=True)
         return steps
+
+    def stray_stores(self, home: Path):
+        """what appeared in the (empty) home directory during the history: [relative path, rows if it is a pin store]"""
+        out = []
+        for f in sorted(home.rglob("*")):
+            if f.is_file():
+                rows = None
+                if f.suffix == ".db":
+                    try:
+                        rows = self.R.rows(f)
+                    except Exception as e:  # noqa: BLE001
+                        rows = f"unreadable: {type(e).__name__}"
+                out.append([str(f.relative_to(home)), rows])
+        return out
 
     # -- the model -----------------------------------------------------------------------
     def model(self, case):
@@ -530,6 +629,15 @@ class Histories(Family):
 
     # -- the property statement, directly ----------------------------------------------------
     def oracle(self, case, obs):
+        v = self.oracle_steps(case, obs)
+        if v is None and obs and obs[-1].get("stray"):
+            # "the pin store" of the property is the ONE the client was configured with: pins kept anywhere else are
+            # neither checked by later connections of this configuration nor visible to revoke / clear / export
+            return ("stray-pin-store", f"the client was configured with tofu_db_path=<tmp>/tofu.db (client certificate: {bool(case.get('ident'))}), "
+                                       f"yet after the history {case['ops']!r} another store exists under the home directory: {obs[-1]['stray']}")
+        return v
+
+    def oracle_steps(self, case, obs):
         cur: dict = {}
         for i, (op, st) in enumerate(zip(case["ops"], obs)):
             after = {(r[0], r[1]): r[2] for r in st["rows"]}
@@ -592,6 +700,9 @@ class Histories(Family):
                         break
                     pin = exp.get(key)
                     if pin is None:
+                        if last and res[0] == "changed":
+                            return ("unpinned-reported-changed", f"{where}: hop {j} to {key} ({HOSTS[h]!r}), which has no pin (pins: {sorted(exp.items())}), "
+                                                                 f"failed with a certificate-changed error {res}: a pin of another host:port was applied to it")
                         exp[key] = pres            # a first connection pins what was presented
                     elif pin != pres and sem(pin) == pres:
                         # the pin is another spelling of the presented certificate's digest (imported "SHA256:…"): the
@@ -601,7 +712,7 @@ class Histories(Family):
                             break
                     elif pin != pres:
                         if not last or res[0] == "ok":
-                            return ("accepted-with-different-cert", f"{where}: hop {j} to {key} pinned to fingerprint {pin} presented {pres} and was accepted (result {res}, {len(conns)} connections)")
+                            return ("accepted-with-different-cert", f"{where}: hop {j} to {key} ({HOSTS[h]!r}) pinned to fingerprint {pin} presented {pres} and was accepted (result {res}, {len(conns)} connections; client certificate: {bool(case.get('ident'))}, store operations on the client's own store object: {bool(case.get('own'))})")
                         if res[0] != "changed":
                             return ("changed-not-reported", f"{where}: hop {j} pinned {pin}, presented {pres}: result {res} is not a certificate-changed error")
                         if res[1:] != [pin, pres, h, p]:
@@ -646,6 +757,139 @@ class Histories(Family):
         return ("on " if case["tofu"] else "off ") + f"len={min(len(case['ops']), 40) // 5 * 5}+ " + ",".join(sorted(kinds))[:90]
 
 
+class Configured(Histories):
+    """histories in further CONFIGURATIONS of the client and the store:
+      own     store operations (trust, revoke, clear, import, an import that FAILS part-way, export + import) are made on the
+              client's own TOFUDatabase object, interleaved with the fetches of that same client object
+      ident   the client has a client certificate (client_cert / client_key) - together with redirects across host names
+      names   host names that differ only in a character SQL's LIKE treats as a wildcard (`_`, `%`), same ports
+    and, always: a custom tofu_db_path with HOME pointing to an empty directory (no other pin store may appear)."""
+    name = "configured"
+    quick_n = 640
+    thorough_n = 3200
+    parallel = True
+    max_len_quick = 8
+    max_len_thorough = 24
+
+    # groups of look-alike host indices (into HOSTS): reg-names with `_` / `-` / a letter / `%`; IPv6 literals with zone ids
+    GROUPS = [[3, 4, 5, 6], [7, 8]]
+
+    def rand_store_op(self, rng, keys):
+        r = rng.random()
+        if r < 0.30:
+            ents = []
+            for _ in range(rng.choice([0, 1, 1, 2, 3])):
+                h, p = rng.choice(keys)
+                ents.append([h, p, rng.choice([CERT_FP[c] for c in READABLE])])
+            return ["import_bad", rng.choice(["merge", "replace", "replace"]), rng.choice(["none", "skip", "update", "update"]), ents,
+                    rng.choice(["fp", "fp", "port", "field", "nohosts"]), rng.randrange(0, 4) if rng.random() < 0.4 else 9]
+        if r < 0.42:
+            return ["export_import", rng.choice(["merge", "replace", "clear-merge"])]
+        if r < 0.55:
+            h, p = rng.choice(keys)
+            return ["trust", h, p, rng.choice(READABLE)]
+        if r < 0.72:
+            h, p = rng.choice(keys)
+            return ["revoke", h, p]
+        if r < 0.80:
+            return ["revoke_host", rng.choice(keys)[0]]
+        if r < 0.85:
+            return ["clear"]
+        ents = []
+        for _ in range(rng.choice([1, 1, 2, 3])):
+            h, p = rng.choice(keys)
+            ents.append([h, p, rng.choice([CERT_FP[c] for c in READABLE])])
+        return ["import", rng.choice(["merge", "merge", "replace"]), rng.choice(["none", "skip", "update"]), ents]
+
+    def rand_fetch(self, rng, keys):
+        r = rng.random()
+        if r < 0.45:
+            return ["get"] + self.rand_hop(rng, keys)
+        if r < 0.62:
+            return ["upload"] + self.rand_hop(rng, keys)
+        hops = [self.rand_hop(rng, keys, allow_patch=False) for _ in range(rng.choice([2, 2, 2, 3]))]
+        for a, b in zip(hops, hops[1:]):
+            if a[0] == b[0] and rng.random() < 0.8:
+                # prefer redirects ACROSS host names
+                others = [k for k in keys if k[0] != a[0]]
+                if others:
+                    b[0], b[1] = rng.choice(others)
+        return ["chain", hops]
+
+    def witnesses(self):
+        b = []
+        # (1) one client object: pinned, an import that fails part-way, then the same / another certificate
+        for mode in ("merge", "replace"):
+            for badk in ("fp", "port", "field"):
+                for cb in ("none", "update"):
+                    for kind in ("get", "upload"):
+                        b.append({"tofu": True, "fresh": False, "own": True, "ident": False, "ops": [
+                            ["get", 1, 0, 0, ""], ["import_bad", mode, cb, [[1, 0, CERT_FP[1]], [0, 1, CERT_FP[2]]], badk, 9],
+                            [kind, 1, 0, 1, ""], ["get", 1, 0, 0, ""], ["get", 0, 1, 0, ""]]})
+        for how in ("merge", "replace", "clear-merge"):
+            for own in (False, True):
+                b.append({"tofu": True, "fresh": not own, "own": own, "ident": False, "ops": [
+                    ["get", 0, 0, 4, ""], ["upload", 2, 1, 1, ""], ["export_import", how], ["get", 0, 0, 0, ""], ["get", 2, 1, 1, ""], ["upload", 2, 1, 2, ""]]})
+        # (2) redirects across host names, with and without a client certificate; the target pinned / unpinned / to another certificate
+        for ident in (False, True):
+            for own in (False, True):
+                for pinned in (None, 1, 2):
+                    for tgt in ((1, 1), (2, 0), (0, 0)):
+                        pre = [["trust", tgt[0], tgt[1], pinned]] if pinned is not None else []
+                        b.append({"tofu": True, "fresh": False, "own": own, "ident": ident, "ops": pre + [
+                            ["chain", [[0, 0, 0, ""], [tgt[0], tgt[1], 1, ""]]], ["get", tgt[0], tgt[1], 1, ""], ["get", tgt[0], tgt[1], 2, ""]]})
+        # (3) look-alike names on one port: every ordered pair of a group
+        for grp in self.GROUPS:
+            for a in grp:
+                for bb in grp:
+                    if a == bb:
+                        continue
+                    b.append({"tofu": True, "fresh": False, "own": False, "ident": False, "ops": [
+                        ["get", a, 0, 0, ""], ["get", bb, 0, 1, ""], ["get", a, 0, 1, ""], ["revoke", bb, 0], ["get", a, 0, 2, ""], ["upload", bb, 0, 2, ""]]})
+                    b.append({"tofu": True, "fresh": False, "own": True, "ident": False, "ops": [
+                        ["trust", a, 1, 0], ["trust", bb, 1, 1], ["revoke_host", bb], ["upload", a, 1, 1, ""],
+                        ["chain", [[bb, 1, 2, ""], [a, 1, 0, ""]]]]})
+        return b
+
+    def gen(self, rng: random.Random, n: int):
+        thorough = n > self.quick_n
+        mx = self.max_len_thorough if thorough else self.max_len_quick
+        nb = 0
+        for c in self.share(self.witnesses()):
+            nb += 1
+            yield c
+        for _ in range(max(0, n - nb)):
+            r = rng.random()
+            if r < 0.45:
+                hosts = list(range(N_PLAIN_HOSTS))
+            elif r < 0.85:
+                hosts = list(rng.choice(self.GROUPS))
+                if len(hosts) > 3:
+                    hosts = rng.sample(hosts, rng.choice([2, 3, 4]))
+            else:
+                hosts = rng.sample(range(len(HOSTS)), 3)
+            allkeys = [(h, p) for h in hosts for p in range(2)]
+            keys = rng.sample(allkeys, rng.choice([2, 3, 4, len(allkeys)]) if len(allkeys) >= 4 else len(allkeys))
+            own = rng.random() < 0.6
+            ln = rng.randint(2, mx)
+            ops = []
+            for _j in range(ln):
+                ops.append(self.rand_fetch(rng, keys) if rng.random() < 0.6 else self.rand_store_op(rng, keys))
+            yield {"tofu": rng.random() < 0.94, "fresh": (not own) and rng.random() < 0.3, "own": own, "ident": rng.random() < 0.5, "ops": ops}
+
+    def key(self, case, obs):
+        kinds = set()
+        for op, st in zip(case["ops"], obs):
+            if st["result"] is not None:
+                kinds.add(f"{op[0]}:{st['result'][0]}")
+            elif op[0] in ("import_bad", "export_import"):
+                kinds.add(f"{op[0]}-{op[1]}")
+        hs = {k[0] for op in case["ops"] for k in op_keys(op)}
+        names = "lookalike" if any(h >= N_PLAIN_HOSTS for h in hs) else "plain"
+        return (("on " if case["tofu"] else "off ") + ("own " if case.get("own") else "cli ") + ("ident " if case.get("ident") else "anon ")
+                + names + " " + ",".join(sorted(kinds))[:80])
+
+
 class SmallScope(Family):
     """EVERY history of length <= L over 2 hosts (one port) x 2 certificates; L = 2 in the quick tier, 4 in thorough.
     The enumeration is split over the shards with Family.share (never cut); one GeminiClient object per history."""
@@ -683,10 +927,12 @@ class SmallScope(Family):
     expect = Histories.expect
     same = Histories.same
     oracle = Histories.oracle
+    oracle_steps = Histories.oracle_steps
+    stray_stores = Histories.stray_stores
 
     def key(self, case, obs):
         res = [st["result"][0] if st["result"] else "-" for st in obs]
         return f"len={len(case['ops'])} " + ",".join(res)
 
 
-FAMILIES = [Histories(), SmallScope()]
+FAMILIES = [Histories(), Configured(), SmallScope()]
